@@ -528,3 +528,14 @@ func fieldEdgeCalls(env *Env, rng *rand.Rand) {
 		mon.Try(func() { env.Conf.PrecomputedWeights.ComputeBarycentricCoefficients(z) })
 	}
 }
+
+var constID, constGen = banderwagon.Identity, banderwagon.Generator
+
+// constantsChanged compares the package-level elements with their values at start-up and restores them.
+func constantsChanged() string {
+	if banderwagon.Identity != constID || banderwagon.Generator != constGen {
+		banderwagon.Identity, banderwagon.Generator = constID, constGen
+		return "banderwagon.Identity or banderwagon.Generator changed"
+	}
+	return ""
+}
